@@ -191,6 +191,7 @@ class ConsolidatorBase:
                 self.join_method == "stack"
                 or (self.join_method == "concat" and self.join_chunks)
                 or len(self.chunk_shape) == 0
+                or len(self.datum_shape) == 0  # scalar datums have no inner chunking to preserve
             ):
                 result = tuple(
                     list_summands(ddim, cdim)
